@@ -118,9 +118,9 @@ func init() {
 	timedRule := "deviation-bounded DFS in the timed regime: the root execution performs the scripted fault at its default instant; every alternative performs it at another quiescent instant (or changes one timeout jitter); a case is one complete execution; distinct = distinct final outcome"
 	register(&Check{Prop: "C13", Level: "model_checking", Rule: timedRule, Assumptions: timedAssumptions, Units: func(tier string) []Unit {
 		if tier == "thorough" {
-			return scUnits(1, "lease3", "lease3-b", "lease2nv", "quiet3")
+			return scUnits(1, "lease3", "lease3-b", "lease2nv", "quiet3", "quiet-addvoter-slow")
 		}
-		return cat(scUnits(1, "lease3", "lease2nv"), []Unit{{Name: "quiet3", Sc: scenarioByName("quiet3"), Bound: 1, Budget: 0}})
+		return cat(scUnits(1, "lease3", "lease2nv", "quiet-addvoter-slow"), []Unit{{Name: "quiet3", Sc: scenarioByName("quiet3"), Bound: 1, Budget: 0}})
 	}})
 	register(&Check{Prop: "C14", Level: "model_checking", Rule: timedRule, Assumptions: timedAssumptions, Units: func(tier string) []Unit {
 		if tier == "thorough" {
